@@ -1563,7 +1563,11 @@ fn forward_device_data(
         let skip_current_client = Some(&outgoing.client_id) != shared_group.current_client();
 
         if skip_current_client {
-            return if caughtup {
+            // Park a member whose turn it is not only when the group has nothing left to hand
+            // out. If it parked merely because ITS read would reach the end of the log, the
+            // turn could come to it while it is parked: nothing wakes it until the next publish
+            // on the filter, and the messages in between are stuck.
+            return if caughtup && publishes.is_empty() {
                 ConsumeStatus::FilterCaughtup
             } else {
                 ConsumeStatus::SkipRequest
